@@ -90,3 +90,30 @@ Proof.
   - exact (eq_trans Hxs (eq_sym Hsq)).
   - rewrite <- Exs. apply (sp_mul_spec_lemma AR_RingLaws); auto.
 Qed.
+
+(* tol = 0: on an SPD storage CG is a direct solver in exact arithmetic -- it returns THE solution within n iterations *)
+Theorem cg_direct_solver_sparse_R (s : sparse AR) (b x0 : list R) max :
+  wfS s -> sp_rows s = sp_cols s -> sp_symmetric s -> sp_posdef s ->
+  length b = sp_rows s -> length x0 = sp_rows s -> (sp_rows s <= max)%nat ->
+  exists k x g, @run_sparse SAR CG s b x0 max 0 = Ok (IOk k, x, g) /\ (k <= sp_rows s)%nat /\
+    @sp_apply AR s x = b /\
+    forall xs, length xs = sp_rows s -> @sp_apply AR s xs = b -> xs = x.
+Proof.
+  intros Hwf Hsq Hsym Hpd Hb Hx Hmax.
+  pose proof (sp_mul_LinOp AR_RingLaws s (sp_rows s) Hwf eq_refl (eq_sym Hsq)) as LO.
+  pose proof (sp_mul_SymOp AR_RingLaws s (sp_rows s) Hwf eq_refl (eq_sym Hsq) Hsym) as SYM.
+  pose proof (sp_posdef_PosDef s (sp_rows s) Hwf eq_refl (eq_sym Hsq) Hpd) as PD.
+  destruct (cg_direct_solver_R (sp_rows s) (@sp_mul AR s) LO SYM b x0 max PD Hb Hx Hmax) as (k & x & g & H & Hk & Eax & Huniq).
+  exists k, x, g.
+  assert (H' : @run_sparse SAR CG s b x0 max 0 = Ok (IOk k, x, g)).
+  { assert (E : forall c, c = sp_rows s ->
+              @solve_cg SAR (@sp_mul AR s) (sp_rows s) c b x0 max 0 = Ok (IOk k, x, g)) by (intros c ->; exact H).
+    exact (E _ (eq_sym Hsq)). }
+  split; auto. split; auto.
+  assert (Hxl : length x = sp_cols s).
+  { destruct (@run_sparse_tracks SAR AR_FieldLaws CG s b x0 max 0 _ x g Hwf H') as (_ & Hl). exact Hl. }
+  split.
+  - apply (sp_mul_Ok_inv AR_RingLaws) in Eax; auto.
+  - intros xs Hxs Exs. apply Huniq; auto. rewrite <- Exs.
+    apply (sp_mul_spec_lemma AR_RingLaws); auto. exact (eq_trans Hxs Hsq).
+Qed.
